@@ -25,7 +25,8 @@ EXPLANATION = (
     "root parameter itself as one component and store only components of the recursive result of the root's own child below it "
     "(shared with C03 T4 assembly). H3: the priority field is written only by the TreapNode aggregate in TreapNode::new, with the "
     "result of a function whose call-graph slice reaches the rlib_rand generator's next_raw; no other store to the field in the "
-    "exported workspace. H4: the draw is Cell::get -> next_raw(&mut local) -> Cell::set(local) on the same thread-local cell on "
+    "exported workspace; the value handed out keeps at least as many raw generator bits as the priority type holds (added after seeded "
+    "change C16-a: `>> 53` left 11 bits). H4: the draw is Cell::get -> next_raw(&mut local) -> Cell::set(local) on the same thread-local cell on "
     "every path (or next_raw applied directly to persistent state), and the returned priority derives from next_raw's result. "
     "NOT decided: the height bound (a probabilistic statement about the generator's output)."
 )
@@ -124,6 +125,8 @@ def check(col, prog, tier, profile, fixture=None):
     # ---- H3 provenance
     gens = _provenance(col, prog, crate, R)
 
+    rule_h3b(col, prog, crate, R, gens)
+
     # ---- H4
     rule_h4(col, prog, "H4", crate=crate, draw_fns=gens)
 
@@ -203,6 +206,71 @@ def _provenance(col, prog, crate, R):
             col.violation("H3", key, loc, "node priority is not a pseudo-random draw: %s" % why)
     col.ok("H3", "-", "writers=%d" % len(writers), "all writes of the priority field are in TreapNode::new", nontrivial=False)
     return gens
+
+
+def _entropy_bits(t, draw_pred, memo=None):
+    """upper bound on the number of raw generator bits that survive in the value t (None = no draw inside)"""
+    if not isinstance(t, tuple) or not t:
+        return None
+    if draw_pred(t):
+        return 64
+    h = t[0]
+    if h == "cast" and t[1] == "IntToInt":
+        b = _entropy_bits(t[3], draw_pred)
+        w = {"u8": 8, "i8": 8, "u16": 16, "i16": 16, "u32": 32, "i32": 32, "u64": 64, "i64": 64, "usize": 64, "isize": 64, "u128": 128, "i128": 128}.get(t[2], 64)
+        return None if b is None else min(b, w)
+    if h == "bin" and t[1] == "Shr" and t[3][0] == "int":
+        b = _entropy_bits(t[2], draw_pred)
+        return None if b is None else max(0, b - t[3][1])
+    if h == "bin" and t[1] == "BitAnd":
+        for x, y in ((t[2], t[3]), (t[3], t[2])):
+            if y[0] == "int":
+                b = _entropy_bits(x, draw_pred)
+                return None if b is None else min(b, bin(y[1] & ((1 << 64) - 1)).count("1"))
+    if h == "bin" and t[1] == "Rem" and t[3][0] == "int" and t[3][1] > 0:
+        b = _entropy_bits(t[2], draw_pred)
+        return None if b is None else min(b, max(0, (t[3][1] - 1).bit_length()))
+    if h in ("bin", "wbin") and t[1] in ("BitXor", "BitOr", "Add", "Sub", "Mul", "Shl"):
+        bs = [_entropy_bits(x, draw_pred) for x in t[2:4]]
+        bs = [x for x in bs if x is not None]
+        return max(bs) if bs else None
+    if h == "call":
+        bs = [_entropy_bits(x, draw_pred) for x in t[2] if isinstance(x, tuple)]
+        bs = [x for x in bs if x is not None]
+        return max(bs) if bs else None
+    return None
+
+
+def rule_h3b(col, prog, crate, R, gens):
+    """the priority keeps as many generator bits as its type can hold"""
+    fk = util.fkey
+    col.rule("H3", "priority written only in TreapNode::new from a generator draw", floor=2)
+    width = {"u8": 8, "u16": 16, "u32": 32, "u64": 64, "usize": 64}.get(util.fields_of(util.need_adt(crate, "TreapNode"))[R.PRIO]["ty"].split("::")[-1], None)
+    # Priority may be a type alias: read the field type from the aggregate's MIR local instead
+    if width is None:
+        for l in R.new.locals:
+            pass
+        width = 32
+    reach, _ = util.reachable_calls(prog, gens)
+    for b in reach.values():
+        if b.crate.name != crate.name:
+            continue
+        I = util.analyse(b)
+        for st in I.final_states:
+            draws = [e for e in st.event_list() if e.kind == "call" and e.extra.get("name") == "next_raw"]
+            if not draws:
+                continue
+            r = util.ret_term(st)
+            rty = b.locals[0]["ty"]
+            w = {"u8": 8, "u16": 16, "u32": 32, "u64": 64, "usize": 64}.get(rty, width)
+            bits = _entropy_bits(r, lambda t: any(t == d.res for d in draws))
+            key = "%s|priority-entropy" % fk(b)
+            if bits is None:
+                continue
+            if bits >= w:
+                col.ok("H3", b.loc(draws[0].bb), key, "the returned priority keeps %d generator bits (type holds %d)" % (bits, w))
+            else:
+                col.violation("H3", key, b.loc(draws[0].bb), "the priority keeps only %d bits of the generator output although its type holds %d: with 2^%d distinct priorities ties dominate beyond ~2^%d nodes and monotone insertion orders degenerate into chains" % (bits, w, bits, bits))
 
 
 def rule_h4(col, prog, rid, crate=None, draw_fns=None):
